@@ -82,7 +82,7 @@ class Oracle(object):
       if isinstance(h.pre, list):
         params["preprocessor"] = Sp.tolist()
       elif h.store is not None:
-        params["preprocessor"] = world.PointStore(Sp)
+        params["preprocessor"] = world.PointStore(Sp, mixed=h.store.mixed)
       else:
         params["preprocessor"] = Sp
     ref = cls_of(h.name)(**params)
